@@ -269,6 +269,8 @@ SHAPES = {
     "nested": [("A", {}), ("B", {}), ("C", {"holder": "A", "holder2": "B"}), ("D", {"a": "C"})],
     "pretask": [("A", {}), ("B", {}), ("C", {"pre": ["A"]}), ("D", {"init": ["B"]}), ("E", {"a": "C"})],
     "cfg_pretask": [("A", {}), ("B", {}), ("C", {"holder_pre": ["A", "B"]}), ("D", {"lst": ["C"], "init": ["A"]})],
+    # A declares task_outputs; B, C and D hold the submitted task object itself (directly, in a list, inside a configuration)
+    "outputs_obj": [("A", {"out": []}), ("B", {"a_obj": "A"}), ("C", {"lst_obj": ["A"]}), ("D", {"holder_obj": "A"})],
 }
 MODES = ["all", "wait_inside", "wait_each"]
 
@@ -306,7 +308,7 @@ def run_c04_c07(tier, seed):
     failures, sigs, _ = _run_cases("c04", specs, timeout=45, label="C04/C07")
     return dict(
         tool="cpython: real experiments on small DAGs of logging tasks (shared append-only log), one failing job at most",
-        bound=f"{len(SHAPES)} DAG shapes (chain, diamond, 2 chains, fan-in via list / dict / nested config / pre-task / init-task / config pre-task) x failing job choice x submission mode",
+        bound=f"{len(SHAPES)} DAG shapes (chain, diamond, 2 chains, fan-in via list / dict / nested config / pre-task / init-task / config pre-task / task object of a task with task_outputs) x failing job choice x submission mode",
         cases=len(specs),
         distinct=len(sigs),
         failures=_dedup(failures),
@@ -919,6 +921,7 @@ def _worker_c04(spec):
         log = Path(tmp) / "log.txt"
         log.touch()
         out = {}
+        tasks = {}
         jobs = {}
         waits_inside = {}
         raised = None
@@ -940,7 +943,11 @@ def _worker_c04(spec):
                         if "holder_pre" in attach:
                             inner, pre = attach["holder_pre"]
                             kw["holder"] = z.Holder(inner=out[inner]).add_pretasks(z.LogInit(dep=out[pre], log=log, name=f"lw-{name}-{pre}"))
-                        task = z.LogTask(**kw)
+                        if "a_obj" in attach: kw["a"] = tasks[attach["a_obj"]]
+                        if "lst_obj" in attach: kw["lst"] = [tasks[d] for d in attach["lst_obj"]]
+                        if "holder_obj" in attach: kw["holder"] = z.Holder(inner=tasks[attach["holder_obj"]])
+                        task = (z.LogTaskOut if "out" in attach else z.LogTask)(**kw)
+                        tasks[name] = task
                         for d in attach.get("pre", []):
                             task.add_pretasks(z.LogInit(dep=out[d], log=log, name=f"lw-{name}-{d}"))
                         init = [z.LogInit(dep=out[d], log=log, name=f"lw-{name}-{d}") for d in attach.get("init", [])]
